@@ -5,7 +5,7 @@ ROOT=$(pwd)
 MUTS=${@:-$(ls mutation_tests/C11/*.diff | xargs -n1 basename | sed 's/.diff//')}
 for m in $MUTS; do
   rm -rf /tmp/work/mut_C11
-  cp -r /tmp/work/repo_snap12 /tmp/work/mut_C11
+  cp -r /tmp/work/repo_snap13 /tmp/work/mut_C11
   (cd /tmp/work/mut_C11 && patch -p1 -s < $ROOT/mutation_tests/C11/$m.diff) || { echo "$m: patch failed"; continue; }
   before=$(ls replays/C11 2>/dev/null | sort)
   echo "=== $m: $(head -1 mutation_tests/C11/$m.diff)"
@@ -28,4 +28,4 @@ PY
 done
 rm -rf /tmp/work/mut_C11
 # restore the pins / build products of the unchanged snapshot
-VERIF_REPO=/tmp/work/repo_snap12 /venv/bin/python -c "import sys; sys.path.insert(0,'.'); from tools import py2lean; py2lean.regenerate(only=['BoundedFuncs','TemplateUtils'])"
+VERIF_REPO=/tmp/work/repo_snap13 /venv/bin/python -c "import sys; sys.path.insert(0,'.'); from tools import py2lean; py2lean.regenerate(only=['BoundedFuncs','TemplateUtils'])"
